@@ -114,6 +114,9 @@ pub fn check_reannounce(t: &Table, e: &TypeEntry, v: &Val, which: Option<(Path, 
 }
 
 pub fn replay(check: &str, i: &Value) -> Option<CheckResult> {
+    if check == "lab" {
+        return crate::props::c12::replay_for(P, i);
+    }
     let t = crate::table();
     let name = i.get("type")?.as_str()?;
     let v: Val = serde_json::from_value(i.get("value")?.clone()).ok()?;
@@ -242,9 +245,20 @@ pub fn run(tier: Tier) -> i32 {
         });
     });
     stats.merge(s);
+    // the same relations on generated command structs (layouts no shipped packet has)
+    match crate::props::c12::lab_side(P, &ctx, tier) {
+        Ok(mut s) => {
+            let vs = std::mem::take(&mut s.violations);
+            stats.merge(s);
+            for v in vs {
+                ctx.record(Err(v), &mut stats);
+            }
+        }
+        Err(code) => return code,
+    }
     ctx.finish(
         stats,
-        "R1: 31 commands x proptest-generated canonical values (incl. bodies pumped to 253..257) x suffixes {empty, every single byte 00..ff, a valid packet, random <= 64 bytes}: decode(packet || s) = (value, s). R2: a group with a tag unknown to the whole tree behind every nested container and at the end of every nested level. R3: every TLV/LLVAR/LLLVAR container at any depth, and the APDU, re-announced 1..3 bytes shorter: error, or exactly the reference reading of the announced bytes. non-trivial = non-empty suffix behind a packet whose last field is greedy (R1), every R2/R3 case; distinct by (type, value, suffix / container, k)",
+        "R1: 31 commands x proptest-generated canonical values (incl. bodies pumped to 253..257) x suffixes {empty, every single byte 00..ff, a valid packet, random <= 64 bytes}: decode(packet || s) = (value, s). R2: a group with a tag unknown to the whole tree behind every nested container and at the end of every nested level. R3: every TLV/LLVAR/LLLVAR container at any depth, and the APDU, re-announced 1..3 bytes shorter: error, or exactly the reference reading of the announced bytes. non-trivial = non-empty suffix behind a packet whose last field is greedy (R1), every R2/R3 case; distinct by (type, value, suffix / container, k). Generated structs: a program of random #[derive(Zvt)] command definitions (C12's generator) is compiled against /repo's macro in a private lab crate and R1 (5 suffixes) and R3 (APDU re-announced one byte shorter) are applied to canonical values of each (classes prefixed lab:)",
         &["R3 compares with the reference decoder only when both accept; an input the reference rejects gives no verdict", "R2 shares the foreign-tag oracle of C13"],
         false,
     )
